@@ -155,6 +155,15 @@ Theorem C14_tags_independent : forall sg tr S S',
 Proof. exact grun_project. Qed.
 Print Assumptions C14_tags_independent.
 
+(* two subject descriptors with the same digest (whatever their media type and size)
+   map to the same referrers tag, and the calls of their referrers act on the same
+   component (same Pool key, same Merge object, same registry tag) *)
+Theorem C14_tag_by_digest : forall a b,
+  s_digest a = s_digest b ->
+  tag_of a = tag_of b /\ forall sg S e, sstep sg S (a, e) = sstep sg S (b, e).
+Proof. exact tag_by_digest. Qed.
+Print Assumptions C14_tag_by_digest.
+
 (* ---- the hypotheses are satisfiable: concrete instances ---- *)
 Definition dA := mkDesc 1 7 0. Definition dB := mkDesc 2 0 3. Definition dC := mkDesc 3 0 0.
 
